@@ -21,7 +21,7 @@ var optSet = []regexp2.RegexOptions{regexp2.Multiline, regexp2.Singleline, regex
 func TestMain(m *testing.M) {
 	h.Setup("C19",
 		"strings of 0-12 runes over all of Unicode, weighted towards metacharacters, whitespace, C0/C1 controls, non-printable and unassigned code points below and above U+FFFF and ordinary text x option subsets of {Multiline, Singleline, ExplicitCapture, IgnorePatternWhitespace, RightToLeft, RE2, ECMAScript} (IgnoreCase excluded: it does not keep literal meaning); one evaluation = one (string, options): Unescape(Escape(s)) == s, \\A(?:Escape(s))\\z compiles, matches s and matches none of up to 8 one-edit mutants of s; non-trivial = Escape(s) != s; distinct = hash of (string, options)",
-		map[string]float64{"escaped": 0.6, "astral": 0.1, "nonprintable": 0.3, "xmode": 0.1},
+		map[string]float64{"escaped": 0.45, "astral": 0.1, "nonprintable": 0.3, "xmode": 0.1},
 		"only valid UTF-8 strings (valid scalar values) are in the domain")
 	h.Main(m)
 }
